@@ -63,6 +63,23 @@ class Unit:
             (l1 if part == 1 else l2).append(line)
         self.part1 = ''.join(l1); self.part2 = ''.join(l2)
 
+    @staticmethod
+    def overriders(ix, f):
+        def is_virtual(n):
+            return bool(n.get('virtual')) or any(c.get('kind') == 'OverrideAttr' for c in n.get('inner', []))
+        if f.get('kind') != 'CXXMethodDecl': return []
+        decl = ix.decl_by_id.get(f.get('previousDecl'), f)
+        if not (is_virtual(f) or is_virtual(decl)): return []
+        name = f.get('name'); scope = f.get('_scope', '')
+        out = []
+        for q, lst in ix.functions.items():
+            if q.split('::')[-1] != name or q == scope + '::' + name: continue
+            for g in lst:
+                if g.get('kind') == 'CXXMethodDecl' and (is_virtual(g) or is_virtual(ix.decl_by_id.get(g.get('previousDecl'), g))):
+                    if len(g.get('inner', [])) >= 0 and sum(1 for c in g.get('inner', []) if c.get('kind') == 'ParmVarDecl') == sum(1 for c in f.get('inner', []) if c.get('kind') == 'ParmVarDecl'):
+                        out.append(q)
+        return sorted(set(out))
+
     # ------------------------------------------------------------------ build unit.c
     def build(self, index_cache):
         os.makedirs(self.dir, exist_ok=True)
@@ -118,6 +135,10 @@ class Unit:
                                 except Exception: pass
                     f = cmap.get(callee)
                     if f is None or not any(c.get('kind') in ('CompoundStmt', 'CXXCtorInitializer') for c in f.get('inner', [])): continue
+                    ov = self.overriders(ix, f)
+                    if ov:
+                        # a virtual method with overriders: the base body is NOT what a call through a base pointer runs
+                        raise Undecided('virtual call %s: overridden by %s; the sidecar must give a dispatch contract (or list the function under //@ lower if the call is non-virtual)' % (callee, ', '.join(ov)))
                     try:
                         L.lower_function(f); progress = True
                         self.auto_lowered.append(callee)
@@ -132,8 +153,12 @@ class Unit:
         out.append('typedef int BOOL;\n')
         for q in ix.rec_by_name:
             out.append('typedef struct %s %s;\n' % (lower.mangle_core(q), lower.mangle_core(q)))
+        for q in ix.enums:
+            en = lower.mangle_core(q)
+            if not en or en in ('Handler_HandlerType',) or re.search(r'\b%s\s*;' % re.escape(en), side): continue
+            out.append('typedef int %s;   /* repo enum */\n' % en)
         if self.lits:
-            out.append('enum {\n' + ''.join('    %s = %d, /* %r */\n' % (k, v[0], v[1][:60]) for k, v in sorted(self.lits.items())) + '};\n')
+            out.append('enum {\n' + ''.join('    %s = %d, /* %s */\n' % (k, v[0], repr(v[1][:60]).replace('*/', '*\\/').replace('/*', '/\\*')) for k, v in sorted(self.lits.items())) + '};\n')
             # text-based aliases (LITX_<sanitised text>) where the sanitised text is unambiguous, so sidecars need not spell the hash
             al = {}
             for k, v in self.lits.items():
